@@ -431,7 +431,7 @@ def case_run(ctx, spec):
     t0 = float(rng.uniform(0.0, 1.0))
     ex = Exact(a, b, g)
     out = []
-    PRE_READ[0] = bool(spec["gen_seed"] % 2)
+    PRE_READ[0] = bool(spec.get("pre_read", spec["gen_seed"] % 2))
     ctx.count("solutions_with_inputs_read_before_freeze", int(PRE_READ[0]))
     for order in spec["orders"]:
         N1, N2 = spec["N"], 2 * spec["N"]
@@ -607,10 +607,11 @@ def specs_for(ctx, n_matter, n_vac, orders, N):
         if lam is None:
             lam = round(ctx.rng.choice([-1, 1]) * ctx.rng.uniform(0.3, 1.0), 3)
         out.append({"kind": "random-gauge", "gen_seed": ctx.rng.randrange(10 ** 6), "orders": list(orders), "N": N,
-                    "vacuum": False, "Lambda": lam, "shift": not (ctx.tier == "thorough" and i % 4 == 3)})
+                    "vacuum": False, "Lambda": lam, "shift": not (ctx.tier == "thorough" and i % 4 == 3),
+                    "pre_read": i % 2 == 0})
     for i in range(n_vac):
         out.append({"kind": "kerr-schild", "gen_seed": ctx.rng.randrange(10 ** 6), "orders": list(orders), "N": N,
-                    "vacuum": (i % 2 == 0), "Lambda": 0.0})
+                    "vacuum": (i % 2 == 0), "Lambda": 0.0, "pre_read": i % 2 == 1})
     return out
 
 
